@@ -194,3 +194,17 @@ def _restrict(spec, pool):
     view = dict(spec)
     view['assets'] = [dict(a, isAbstract=(a['isAbstract'] or a['name'] not in pool)) for a in spec['assets']]
     return view
+
+
+def resolve_spec(case):
+    """cases over the shipped coreLang carry {'lang': 'corelang', 'pool': [...]} instead of the (large) spec"""
+    if case.get('lang') == 'corelang':
+        spec = shipped_spec()
+        return None if spec is None else _restrict(spec, case['pool'])
+    return case.get('spec')
+
+
+@st.composite
+def corelang_pool(draw, min_size=2, max_size=4):
+    L = Lang(shipped_spec())
+    return draw(st.lists(st.sampled_from(L.concrete()), min_size=min_size, max_size=max_size, unique=True))
